@@ -373,4 +373,47 @@ PROPS = {
         ],
         "partial": ["registry half of C05 (manifest checksums, package file checksums, https URLs into the registry) not modelled yet"],
     },
+    "C16": {
+        "harness": "c16",
+        "props_file": "Props/C16.v",
+        "run_module": "Model.Symbols Model.RunC16",
+        "run_fn": "run_c16",
+        "pinned_theorems": ["C16_exports_set", "C16_own_first", "C16_terminates", "C16_names_okb_correct",
+                            "C16_wf_checker_sound", "C16_goto_terminates_partial", "C16_goto_sound_partial",
+                            "C16_goto_results_checked",
+                            "C16_dotted_namespace_refuted", "C16_import_conflict_refuted"],
+        "rule": ("one case = one multi-module program analysed by the REAL RootSymbol: (1) every spec file of "
+                 "/repo/tests/specs/symbols and /repo/tests/specs/graph (all script sources of the spec are roots; JSR "
+                 "manifests get their checksums filled in as the spec runner does), (2) 13 hand-written programs (star "
+                 "cycles, self re-export, diamond, unresolved stars, dotted/merged namespaces, go-to-definition chains and "
+                 "cycles, import-equals aliases, circular import aliases), (3) generated programs of 2-6 modules "
+                 "(.ts/.d.ts/.js/.mjs/.mts/.tsx, JS modules typed by @ts-self-types siblings, a JSON module, a broken "
+                 "module, a redirect, missing and npm: targets): function overloads, classes with static/instance/"
+                 "private/#private members, accessors, auto-accessors, index signatures, constructor overloads and "
+                 "parameter properties, interfaces with call/construct/index/method/accessor signatures, type aliases, "
+                 "(const) enums, nested/dotted/merged/ambient namespaces, destructuring variables, default exports of "
+                 "every form, export =, export lists and aliases, import forms incl. import type / import x = require / "
+                 "import A = N.B / export import, export * / export * as / export {..} from / export type * with cycles, "
+                 "expando properties, declaration merging inside the groups TypeScript allows; names are drawn from an "
+                 "8-name pool shared by all modules so that star re-exports collide. 20% of the generated programs are "
+                 "adversarial (parseable but rejected by TypeScript: import bindings re-declared locally, incompatible "
+                 "merges, several default exports). Per module, through the public API: the symbol table is dumped and "
+                 "judged by the extracted proved-sound checker wf_symtabb; ModuleInfoRef::exports() (complete resolved "
+                 "map with re-export paths, unresolved list) is compared with the model's exports_of computed from the "
+                 "dumped own exports, `export *` specifiers, ModuleGraph::resolve_dependency answers and the "
+                 "module_from_specifier table, and its name set is judged by names_okb; "
+                 "go_to_definitions_or_unresolveds is called on EVERY symbol under a 5 s watchdog (programs in the input "
+                 "class of F-C16c run in a child process first), every result is judged by goto_okb, and - for programs without an "
+                 "`import X = A.B` declaration (about 2/3 of them) - the complete ordered result lists are compared with the "
+                 "model's goto_defs. non-trivial = "
+                 ">= 2 analysed modules, >= 10 symbols and >= 1 resolved star re-export; distinct = distinct abstract input"),
+        "assumptions": [
+            "(a) is a proof about the model of exports_and_re_exports_inner; the SymbolFiller (b) is NOT modelled: real tables are checked per explored module by the extracted, proved-sound checker (translation-validation strength)",
+            "(c) find_definition_paths_internal / go_to_file_export are modelled and proved terminating and sound for the fragment without qualified names only (QualifiedTarget / resolve_qualified_name are not modelled: with them termination is false, F-C16c); for programs with qualified names termination is watched (5 s) and results are checked by the proved-sound result checker",
+            "resolve_dependency and module_from_specifier enter the export model as data computed by the real crate",
+            "symbol names are compared as the API reports them (Symbol::maybe_name / SymbolDecl::maybe_name); alias symbols (a non-definition declaration) must not be listed as child or member, as in tests/helpers",
+            "known findings F-C16a (dotted namespace segment re-declared in its body: a symbol is its own child / listed twice), F-C16b (programs TypeScript rejects for conflicting declarations: mixed alias/definition symbols, differing declaration names) and F-C16c (circular import alias: go-to-definition overflows the stack) are reported as KNOWN-FINDING",
+        ],
+        "partial": ["export resolution is proved for the model; tree shape is decided per explored output by a proved-sound checker (the SymbolFiller is not modelled); go-to-definition is proved terminating/sound only for the fragment without qualified names (C16_goto_*_partial), the unrestricted termination claim is false (F-C16c)"],
+    },
 }
